@@ -4,13 +4,29 @@ extern crate std;
 use std::{vec, vec::Vec};
 use crate::vk_support::*;
 use crate::{dcs, options, Display};
+#[allow(unused_imports)]
+use embedded_hal::digital::OutputPin;
 
 type Disp<'a, const W: u16, const H: u16> = Display<RecIface<'a, u8, 0>, FbModel<W, H>, MockPin<'a>>;
 
+/// Any display `Builder::init` can produce for this framebuffer: built through the public builder API (so the harness
+/// does not depend on `Display`'s private layout); the recording interface is reset afterwards (`base` = 0).
 fn any_display<'a, const W: u16, const H: u16>(clock: &'a Clock) -> Disp<'a, W, H> {
-    let options = any_valid_options(W, H);
-    let madctl = dcs::SetAddressMode::from(&options);
-    Display { di: RecIface::new(clock), model: FbModel::<W, H>, rst: None, options, madctl, sleeping: kani::any() }
+    let o = any_valid_options(W, H);
+    let r = crate::Builder::new(FbModel::<W, H>, RecIface::new(clock))
+        .reset_pin(MockPin::new(clock))
+        .color_order(o.color_order)
+        .orientation(o.orientation)
+        .invert_colors(o.invert_colors)
+        .refresh_order(o.refresh_order)
+        .display_size(o.display_size.0, o.display_size.1)
+        .display_offset(o.display_offset.0, o.display_offset.1)
+        .init(&mut MockDelay(clock));
+    let mut d = match r { Ok(d) => d, Err(_) => { kani::assume(false); unreachable!() } };
+    // forget the initialisation traffic: harnesses count from here
+    d.di = RecIface::new(clock);
+    clock.ops.set(0);
+    d
 }
 
 // ---------------------------------------------------------------------------------------------- C16
@@ -97,7 +113,7 @@ fn c01_set_pixel<const W: u16, const H: u16>() {
     let (sc, sr, ec, er) = window_at(&d, 0);
     assert!(sc == ec && sr == er);
     assert_lands(&d, madctl, sc, sr, x, y);
-    kani::cover!(x > 0 && y > 0 && d.options.display_offset.0 > 0);
+    kani::cover!(x + 1 == lw && y + 1 == lh);
 }
 #[kani::proof]
 fn c01_set_pixel_1x1() { c01_set_pixel::<1, 1>() }
@@ -149,15 +165,24 @@ type CDisp<'a> = Display<CtrlMock<'a, 0>, FbModel<240, 320>, MockPin<'a>>;
 
 /// any display whose flag agrees with the controller (the invariant), any time since the last sleep command >= 120 ms
 fn any_consistent<'a>(clock: &'a Clock) -> CDisp<'a> {
-    let options = any_valid_options(240, 320);
-    let madctl = dcs::SetAddressMode::from(&options);
+    let o = any_valid_options(240, 320);
+    let r = crate::Builder::new(FbModel::<240, 320>, CtrlMock::<0>::new(clock))
+        .reset_pin(MockPin::new(clock))
+        .orientation(o.orientation)
+        .display_size(o.display_size.0, o.display_size.1)
+        .display_offset(o.display_offset.0, o.display_offset.1)
+        .init(&mut MockDelay(clock));
+    let mut d = match r { Ok(d) => d, Err(_) => { kani::assume(false); unreachable!() } };
+    // any state in which flag and controller agree (the invariant), any time >= 120 ms since the last sleep command
     let sleeping: bool = kani::any();
-    let mut di: CtrlMock<0> = CtrlMock::new(clock);
-    di.sleeping = sleeping;
-    di.on = true;
-    di.t_slp_ns = Some(0);
+    d.sleeping = sleeping;
+    d.di.sleeping = sleeping;
+    d.di.on = true;
+    d.di.t_slp_ns = Some(0);
+    d.di.min_slp_gap_ns = u64::MAX;
     clock.ns.set(120_000_000 + kani::any::<u32>() as u64);
-    Display { di, model: FbModel::<240, 320>, rst: None, options, madctl, sleeping }
+    clock.ops.set(0);
+    d
 }
 
 /// induction step of "is_sleeping() == controller sleep state" and of the 120 ms spacing, for every operation,
